@@ -14,7 +14,16 @@ def mk_engine(repo):
     eng.contracts[FQ + "_next"] = next_contract()
     eng.prelude_methods["hex"] = lambda e, st, base, args, ctx, node: [(st, SStr(fresh("hex", z3.StringSort())))]
     eng.prelude_methods["find"] = bytes_find
+    eng.prelude_methods["lstrip"] = bytes_lstrip
+    eng.instantiators = list(getattr(eng, "instantiators", [])) + [S.lskipv_instantiator]
     return eng
+
+def bytes_lstrip(e, st, base, args, ctx, node):
+    """assumed contract of bytes.lstrip(<one octet>): the view without its leading run of that octet"""
+    if len(args) != 1 or not isinstance(args[0], SBytes) or not (z3.is_int_value(z3.simplify(args[0].n)) and z3.simplify(args[0].n).as_long() == 1): raise Unsupported("lstrip: only lstrip(<single octet>) is modelled")
+    k = S.LSKIPV(base.arr, args[0].at(0), base.off, base.off + base.n)
+    st.pc.append(z3.And(k >= base.off, k <= base.off + base.n))
+    return [(st, SBytes(base.arr, z3.simplify(base.off + base.n - k), k))]
 
 def bytes_find(e, st, base, args, ctx, node):
     """assumed contract of bytearray.find(byte) on an offset view: index of the first occurrence, -1 when absent (stated for 0x7E via flag_idx)"""
@@ -291,6 +300,7 @@ def install_reader_contracts(eng):
         buf, ch = args; b = st.getf(buf, "_buffer")
         if not (isinstance(ch, SBytes) and st.ghost.get("chunk_is_stream_segment") is not None): raise Unsupported("extend outside read()")
         gt_before, gt_after = st.ghost["chunk_is_stream_segment"]
+        ctx.oblige(st, "pre:extend(the whole chunk is buffered: no octet of the stream is dropped or reordered)", z3.And(z3.BoolVal(ch.arr.eq(G)), ch.off == gt_before, ch.off + ch.n == gt_after), node)
         if z3.is_int_value(z3.simplify(b.n)) and z3.simplify(b.n).as_long() == 0:
             st.setf(buf, "_buffer", SBytes(G, ch.n, gt_before))
         else:
@@ -305,6 +315,7 @@ def reader_obligations(eng, configs=CONFIGS, methods=("_read_next", "read"), gho
     l1, a1 = S.unstuff_lemmas(Obligation); l2, a2 = S.unstuff_content_lemmas(Obligation)
     obls += l1 + l2
     eng.prelude_axioms += [a1["unstuff_frame"], a1["cnt_bounds"], a2["unstuffed_at_frame"], a2["raw_length_bound"]]
+    eng.instantiators = list(getattr(eng, "instantiators", [])) + [S.cnt_instantiator]
     install_reader_contracts(eng)
     fn_rn, mod, cls = eng.funcs[R + "_read_next"]
     # ---------------- _read_next: requires reader_inv and one unconsumed octet
@@ -318,6 +329,7 @@ def reader_obligations(eng, configs=CONFIGS, methods=("_read_next", "read"), gho
         else: raise Unsupported("_read_next result is not a definite bool on this path")
         res.append(("consumes at least one octet (termination measure of read's loop)", z3.And(v["pl"] <= old["pl"] - 1, v["pl"] >= 0)))
         res.append(("ghost stream length unchanged", z3.And(v["gt"] == old["gt"], v["gle"] == old["gle"])))
+        if v["fr"] is not None: res.append(("exactly one octet is consumed while the reader stays in a frame", v["pl"] == old["pl"] - 1))
         return res
     def transition_goals(cfg, in_frame, old, st1, rd, val):
         """exact transition of the reader on the next input octet c, case by case (this is what makes the step a function of
@@ -390,7 +402,14 @@ def reader_obligations(eng, configs=CONFIGS, methods=("_read_next", "read"), gho
             assume_inv(s2, rd, completed=result)
             v1 = reader_view(s2, rd)
             s2.pc += [v1["pl"] <= v0["pl"] - 1, v1["pl"] >= 0, v1["gt"] == v0["gt"], v1["gle"] == v0["gle"]]
-            outs.append((s2, result))
+            # the exact transition clauses T1-T10 (proved for _read_next) relate the new state to the old one
+            fr0 = v0["fr"]; old = {"c": G[v0["gp"]], "esc": v0["esc"], "rn": v0["raw"].n, "raw": v0["raw"].arr}
+            if fr0 is not None:
+                d0 = st.getf(fr0, "_frame_data"); old.update(n=d0.n, arr=d0.arr, cp=S.CP(d0.arr, d0.n))
+            s2.pc += [g for _, g in transition_goals(cfg, fr0 is not None, old, s2, rd, result)]
+            # exactly one octet is consumed unless the reader went to hunt mode (then everything up to the next flag is skipped)
+            if shape == "frame": s2.pc.append(v1["pl"] == v0["pl"] - 1)
+            if e.feasible(s2): outs.append((s2, result))
         return outs
     eng.contracts[R + "_read_next"] = Contract(apply=apply_read_next)
     if "read" in methods:
@@ -401,11 +420,11 @@ def reader_obligations(eng, configs=CONFIGS, methods=("_read_next", "read"), gho
                 v0 = reader_view(st, rd); st.pc.append(v0["pl"] == 0)          # read() leaves nothing unconsumed (its own postcondition)
                 carr = z3.Const("chunk", BYTE_ARR); cn = z3.Int("cn"); k = z3.Int("k__c")
                 if not any(str(cn) == str(x) for x in eng.len_vars): eng.len_vars.append(cn)
-                st.pc += [cn >= 0, z3.ForAll([k], z3.Implies(z3.And(0 <= k, k < cn), carr[k] == G[v0["gt"] + k]))]   # the chunk is the next segment of the stream
+                st.pc += [cn >= 0]
                 gt0, gle0 = v0["gt"], v0["gle"]
                 root = f"{R}read[{cfg_label(cfg, in_frame)}]"
                 ctx = Ctx(eng, mod, cls, R + "read", root_name=root); ctx.verifying = R + "read"
-                st.locals = {"self": rd, "data_chunk": SBytes(carr, cn)}
+                st.locals = {"self": rd, "data_chunk": SBytes(G, cn, gt0)}        # (ghost) the chunk is the next segment of the stream
                 appended = []
                 def hook(st_, lst, item, ctx_, node_, rd=rd, appended=appended):
                     # obligations on every frame put into the result list: it is the reader's current frame in the 'completed' state
@@ -499,3 +518,48 @@ def groups_result(tasks, select=None, budget_ms=12000):
 
 def hdlc_result(repo, tier, frame_want, reader, select=None, budget_ms=12000):
     return groups_result(hdlc_tasks(repo, frame_want, reader), select, budget_ms)
+
+
+# ----------------------------------------------------------------------------- whole-segment lemma (C16 / C02, octet stuffing): ghost loop over the real contract
+def segment_lemma_obligations(eng, cfg):
+    """From an empty frame right after a flag: a flag-free segment of L <= 2047 raw octets followed by a flag is consumed octet by octet without the frame being
+    discarded; at the closing flag the frame holds exactly that segment (raw == G[p:p+L], octets == unstuff(raw) by the invariant) and it completes (returns True)
+    unless its header check sequence is not complete yet or - with abort detection - the segment ends with the escape octet."""
+    import os
+    here = os.path.dirname(os.path.abspath(__file__))
+    q = "props.ghost_hdlc.lemma_segment_reaches_closing_flag"
+    if "props.ghost_hdlc" not in eng.trees:
+        import ast as _ast
+        src = open(os.path.join(here, "ghost_hdlc.py")).read(); eng.trees["props.ghost_hdlc"] = _ast.parse(src); eng.sources["props.ghost_hdlc"] = src; eng.paths["props.ghost_hdlc"] = os.path.join(here, "ghost_hdlc.py")
+        for node in eng.trees["props.ghost_hdlc"].body:
+            if isinstance(node, _ast.FunctionDef): eng.funcs[f"props.ghost_hdlc.{node.name}"] = (node, "props.ghost_hdlc", None)
+    fn, mod, cls = eng.funcs[q]
+    st = State(); rd, buf = mk_reader(st, cfg, True, eng=eng); assume_inv(st, rd)
+    v0 = reader_view(st, rd); fr = v0["fr"]; d0 = st.getf(fr, "_frame_data")
+    L = z3.Int("seg_len"); p0 = v0["gp"]; k = z3.Int("k__g")
+    if not any(str(L) == str(x) for x in eng.len_vars): eng.len_vars.append(L)
+    st.pc += [d0.n == 0, v0["raw"].n == 0, z3.Not(v0["esc"]),                                   # empty frame right after a flag, nothing pending
+              L >= 1, L <= 2047, v0["pl"] >= L + 1,
+              z3.ForAll([k], z3.Implies(z3.And(p0 <= k, k < p0 + L), G[k] != 0x7E)), G[p0 + L] == 0x7E]    # flag-free segment, then the closing flag
+    ctx = Ctx(eng, mod, cls, q, root_name=f"lemma.segment_reaches_closing_flag[{cfg_label(cfg, True)}]"); ctx.verifying = q
+    st.locals = {"reader": rd, "seg_len": SInt(L)}
+    pl0 = v0["pl"]
+    def havoc(st_h, e):
+        s2 = st_h.fork(); tag = f"__g{next(_calls)}"
+        rd2, buf2 = mk_reader(s2, cfg, True, tag=tag, eng=e)
+        s2.heap[rd.oid] = (s2.heap[rd2.oid][0], s2.heap[rd2.oid][1]); del s2.heap[rd2.oid]
+        return [s2]
+    def inv(st_, e):
+        v = reader_view(st_, rd); kk = to_int(st_.locals["k"])
+        if v["fr"] is None: return [("the frame is not discarded while the segment is consumed", z3.BoolVal(False))]
+        return list(reader_inv(st_, rd)) + [("k octets of the segment are in the frame: raw == G[p : p+k]", z3.And(kk >= 0, kk <= L, v["raw"].n == kk, v["gp"] == p0 + kk)),
+                                             ("unconsumed input: the rest of the segment and the closing flag", v["pl"] == pl0 - kk), ("ghost stream unchanged", z3.And(v["gt"] == v0["gt"], v["gle"] == v0["gle"]))]
+    eng.loop_specs[(q, 0)] = (inv, (lambda st_, e: L - to_int(st_.locals["k"])), {}, havoc)
+    for st1, flow, val in eng.exec_block(fn.body, st, ctx):
+        if not eng.feasible(st1): continue
+        if flow == RAISE:
+            ctx.oblige(st1, f"raises:nothing escapes ({val.exc})", z3.BoolVal(False), fn); continue
+        v = reader_view(st1, rd)
+        ctx.oblige(st1, "lemma:at the closing flag the reader is still in the frame opened by the flag before the segment, and the frame holds exactly the segment",
+                   z3.And(z3.BoolVal(v["fr"] is not None), v["raw"].n == L, v["gp"] == p0 + L, v["pl"] >= 1, G[v["gp"]] == 0x7E), fn)
+    return ctx.obls
